@@ -289,3 +289,97 @@ Proof.
 Qed.
 
 End Phases.
+
+(* ------------------------------------------------------------------ revision resolution (C08) ---- *)
+Section Resolve.
+Variable hashes : list ((Z * Z) * string).
+
+Definition create_only (c : call) : Prop := match c with CCreateRev _ _ _ | CGetRev _ => True | _ => False end.
+Definition no_create (c : call) : Prop := match c with CCreateRev _ _ _ => False | _ => True end.
+
+(* the collision loop only ever creates and reads: a colliding revision is never updated or deleted;
+   what it returns carries the requested template *)
+Lemma ccr_spec : forall fuel s r coll,
+  mspec create_only (fun x => r_tmpl (fst x) = r_tmpl r) (create_controller_revision hashes fuel s r coll).
+Proof.
+  induction fuel as [|f IH]; intros s r coll; cbn [create_controller_revision]; [apply mspec_fuel|].
+  destruct (hash_of hashes (r_tmpl r) coll) as [h|]; [|apply mspec_fuel].
+  eapply mspec_bind.
+  - apply mspec_try. unfold api_create_rev. apply (mspec_call _ (fun created => r_tmpl created = r_tmpl r)); [exact I|].
+    intros w a w' E. destruct (find_rev _ _); inversion E; subst. reflexivity.
+  - intros [created|e] Hc.
+    + apply mspec_ret. exact Hc.
+    + destruct e; try apply mspec_fail.
+      eapply mspec_bind; [unfold api_get_rev; apply (mspec_call _ (fun _ => True)); [exact I | auto]|].
+      intros ex _. cbn [r_tmpl]. destruct (r_tmpl ex =? r_tmpl r) eqn:E.
+      * apply mspec_ret. apply Z.eqb_eq in E. exact E.
+      * apply IH.
+Qed.
+
+Lemma equal_revision_tmpl a b : equal_revision a b = true -> r_tmpl a = r_tmpl b.
+Proof.
+  unfold equal_revision. destruct (hash_num a), (hash_num b); intros H;
+    try (apply andb_true_iff in H; destruct H as [_ H]); apply Z.eqb_eq in H; exact H.
+Qed.
+
+Lemma last_opt_In {A} (l : list A) x : last_opt l = Some x -> In x l.
+Proof.
+  unfold last_opt. destruct (List.rev l) as [|y t] eqn:E; [discriminate|]. intros H. inversion H; subst.
+  apply in_rev. rewrite E. left. reflexivity.
+Qed.
+
+(* an equal revision is listed => nothing is created (reuse or renumber) *)
+Lemma gsr_no_create_when_equal_listed s revs fresh_hash :
+  hash_of hashes (s_tmpl s) (match st_coll (s_status s) with Some c => c | None => 0 end) = Some fresh_hash ->
+  (exists r, In r revs /\ r_tmpl r = s_tmpl s /\ hash_num r = None) ->
+  emits no_create (get_set_revisions hashes s revs).
+Proof.
+  intros Hh (r & Hr & Ht & Hn). unfold get_set_revisions. rewrite Hh.
+  set (fresh := {| r_name := rev_name s fresh_hash; r_revision := _; r_tmpl := s_tmpl s; r_owner := Some (me s); r_match := true;
+                   r_marker := None; r_hash := Some fresh_hash; r_created := 0; r_labels_nil := false |}).
+  assert (Heq : In r (filter (fun q => equal_revision q fresh) revs)).
+  { apply filter_In. split; [exact Hr|]. unfold equal_revision. rewrite Hn.
+    destruct (hash_num fresh); apply Z.eqb_eq; exact Ht. }
+  destruct (last_opt (filter (fun q => equal_revision q fresh) revs)) as [e|] eqn:El.
+  2:{ exfalso. unfold last_opt in El. destruct (List.rev (filter _ revs)) as [|y t] eqn:Er; [|discriminate].
+      apply in_rev in Heq. rewrite Er in Heq. destruct Heq. }
+  destruct (last_opt revs) as [l|] eqn:Ell.
+  2:{ exfalso. unfold last_opt in Ell. destruct (List.rev revs) as [|y t] eqn:Er; [|discriminate].
+      apply in_rev in Hr. rewrite Er in Hr. destruct Hr. }
+  apply emits_bind.
+  - destruct (equal_revision l e); [apply emits_ret|].
+    apply emits_bind; [|intros u; apply emits_ret].
+    clear. generalize 4%nat as fuel, EConflict as last0. intros fuel. revert e.
+    induction fuel as [|f IH]; intros e last0; cbn [update_controller_revision]; [apply mspec_fail|].
+    destruct (r_revision e =? _); [apply emits_ret|].
+    unfold api_put_rev, api_get_rev. msimp; try exact I; apply IH.
+  - intros [upd coll]. apply emits_ret.
+Qed.
+
+(* scaling edits cannot change the update revision: the resolution reads nothing of the set but its
+   name, UID, template and status *)
+Lemma ccr_ext : forall fuel s1 s2 r coll st, s_name s1 = s_name s2 ->
+  create_controller_revision hashes fuel s1 r coll st = create_controller_revision hashes fuel s2 r coll st.
+Proof.
+  induction fuel as [|f IH]; intros s1 s2 r coll st Hn; cbn [create_controller_revision]; [reflexivity|].
+  destruct (hash_of hashes (r_tmpl r) coll) as [h|]; [|reflexivity].
+  unfold rev_name. rewrite Hn. unfold bind.
+  destruct (try _ st) as [[c|e|p|] s1']; try reflexivity.
+  destruct c as [created|e]; [reflexivity|]. destruct e; try reflexivity.
+  destruct (api_get_rev _ s1') as [[ex|e|p|] s2']; try reflexivity.
+  destruct (r_tmpl ex =? _); [reflexivity|]. apply IH. exact Hn.
+Qed.
+
+Lemma gsr_ignores_non_template_fields s1 s2 revs st :
+  s_name s1 = s_name s2 -> s_uid s1 = s_uid s2 -> s_tmpl s1 = s_tmpl s2 -> s_status s1 = s_status s2 ->
+  get_set_revisions hashes s1 revs st = get_set_revisions hashes s2 revs st.
+Proof.
+  intros Hn Hu Ht Hs. unfold get_set_revisions, rev_name, me. rewrite Hn, Hu, Ht, Hs.
+  destruct (hash_of hashes (s_tmpl s2) _); [|reflexivity].
+  unfold bind.
+  match goal with |- (match ?m1 st with _ => _ end) = (match ?m2 st with _ => _ end) => assert (Hm : m1 st = m2 st) end.
+  { destruct (last_opt _); [destruct (last_opt revs)|]; try reflexivity; apply ccr_ext; exact Hn. }
+  rewrite Hm. reflexivity.
+Qed.
+
+End Resolve.
